@@ -1165,7 +1165,7 @@ impl TDigestView<'_> {
         if last_weight > 1. && (centroids_weight - weight <= last_weight / 2.) {
             return Some(
                 self.max
-                    + (((centroids_weight - weight - 1.) / ((last_weight / 2.) - 1.))
+                    - (((centroids_weight - weight - 1.) / ((last_weight / 2.) - 1.))
                         * (self.max - self.centroids[num_centroids - 1].mean)),
             );
         }
